@@ -392,6 +392,8 @@ def validate_trace(wd, module, cfg, trace_path, nsplit=None, timeout=1800, env=N
             if boundary is not None:
                 while cur < hi and not boundary(lines[cur - 1]):
                     cur += 1
+        if cur < hi and rounds > max_rejects:
+            infra.append('%d records of this chunk left unexamined after %d rejections in it' % (hi - cur, len(rej)))
         return acc, rej, infra, st, tr, last
     with ThreadPoolExecutor(max_workers=NCPU) as ex:
         results = list(ex.map(one, chunks))
